@@ -6,6 +6,7 @@ import Geodesy.Model.Wire
 import Geodesy.Model.Proj
 import Geodesy.Model.Ctx.Context
 import Geodesy.Model.Num.Angular
+import Geodesy.Model.Cli.Kp
 import Geodesy.Gen.Tables
 
 open Geodesy Geodesy.Text Geodesy.Wire
@@ -215,8 +216,38 @@ def handleAng (fields : List String) : String :=
     | none => "bad-case"
   | _ => "bad-case"
 
+/-- `kp`: options, operation, input files ↦ exit status and standard output -/
+def handleKp (fields : List String) : String :=
+  match fields with
+  | optStr :: opdef :: _nfiles :: files =>
+    let kv := (optStr.splitOn ";").filterMap fun p => match p.splitOn "=" with | [k, v] => some (k, v) | _ => none
+    let get (k : String) : String := ((kv.find? (·.1 == k)).map (·.2)).getD "-"
+    let optF (k : String) : Option Float := if get k == "-" then none else some (parseFloat (get k))
+    let optN (k : String) : Option Nat := if get k == "-" then none else (get k).toNat?
+    let opts : Kp.Opts Float :=
+      { inverse := get "inv" == "1", roundtrip := get "rt" == "1", height := optF "z", time := optF "t",
+        decimals := optN "d", dimension := optN "D" }
+    let ctx : CtxSpec := { resources := Gen.builtinAdaptors.map (fun p => (S p.1, S p.2)), users := [], plain := true }
+    match (match Proj.parseProj (u opdef) with
+           | .error e => Except.error e
+           | .ok d => Op.new (mkEnv ctx) globals d) with
+    | .error _ => "rc=1 out="
+    | .ok op =>
+      let applyF : Dir → List (Coor Float) → List (Coor Float) × Nat := fun dir data =>
+        apply sem (Float.ofBits 0x7FF8000000000000) (Ops.actionOf Float) op dir data
+      let tr := Kp.transform opts applyF Kp.fmtFloat
+      let fs : List (Option (List Str)) := files.map fun f =>
+        if f == "UNREADABLE" then none
+        else
+          -- `BufRead::lines`: split at \n, strip one trailing \r
+          some (lines (u f))
+      let (out, ok) := Kp.run opts Gen.kpBatch tr fs
+      "rc=" ++ (if ok then "0" else "1") ++ " out=" ++ escape (String.join (out.map (· ++ "\n"))).toList
+  | _ => "bad-case"
+
 def handle (line : String) : String :=
   match line.splitOn "\t" with
+  | "KP" :: rest => handleKp rest
   | "ANG" :: rest => handleAng rest
   | "HIST" :: rest => handleHist rest
   | "REG" :: rest => handleReg rest
